@@ -261,6 +261,23 @@ fn sty(f: &[&str]) -> String {
         .effects(mk(f[3].parse().expect("mask")));
     let v = parse_color(f[4]);
     let e = mk(f[5].parse().expect("mask"));
+    // colour builders: `fg.on(bg)` / `fg.on_default()` (on Color and on each colour kind) are the
+    // default style with exactly those colours, and From conversions keep the value
+    let mut builders = String::new();
+    if let Some(fg) = s.get_fg_color() {
+        let want0 = Style::new().fg_color(Some(fg));
+        let mut ok = fg.on_default() == want0;
+        if let Some(bg) = v {
+            let want = Style::new().fg_color(Some(fg)).bg_color(Some(bg));
+            ok &= fg.on(bg) == want;
+            ok &= match fg {
+                Color::Ansi(a) => a.on(bg) == want && a.on_default() == want0 && Color::from(a) == fg,
+                Color::Ansi256(x) => x.on(bg) == want && x.on_default() == want0 && Color::from(x) == fg && Color::from(x.index()) == fg,
+                Color::Rgb(r) => r.on(bg) == want && r.on_default() == want0 && Color::from(r) == fg && Color::from((r.r(), r.g(), r.b())) == fg,
+            };
+        }
+        builders = format!(" builders={}", if ok { "ok" } else { "DIFFER" });
+    }
     let mut oa = s;
     oa |= e;
     let mut sa = s;
@@ -290,7 +307,11 @@ fn sty(f: &[&str]) -> String {
         format!("new={}", show_style(Style::new())),
         format!("dflt={}", show_style(Style::default())),
     ];
-    parts.join(";")
+    let mut out = parts.join(";");
+    if builders.contains("DIFFER") {
+        out.push_str(";builders=DIFFER");     // only printed on a mismatch: the model prints nothing here
+    }
+    out
 }
 
 pub fn dispatch(kind: &str, f: &[&str]) -> Option<String> {
